@@ -1,13 +1,82 @@
 //go:build verif
 
-// placeholder: harness c12 is being written
+// Harness c12: keys, parameters and keysets survive serialization unchanged (property C12).
+//
+// Stream 1 (keys.go, grid.go, expect.go): for every key type registered in protoserialization ×
+// the grid of valid parameter combinations reachable through the public NewParameters constructors
+// × variants × id classes {0, 1, 2^31-1, 2^32-1, random} × fresh (and leading-zero) key material:
+// SerializeKey → ParseKey → Equal (both directions) → byte-identical re-serialisation; the
+// serialized value is unmarshalled into its generated Go type, walked with protoreflect, compared
+// field by field with a hand-written accessor dump (enum numbers copied from the .proto files),
+// and sent to the Lean strict wire decoder (`P wire`), which must accept it, find exactly the
+// typed fields in field-number order and re-encode it byte-identically. The same for parameters
+// and key templates.
+// Stream 2 (perturb.go): non-canonical / perturbed serializations.
+// Stream 3 (keysets.go): keysets through every writer/reader pair.
 package main
 
-import "github.com/tink-crypto/tink-go/v2/internal/verifharness/hlib"
+import (
+	"fmt"
+	"os"
+	"sort"
+	"time"
+
+	"github.com/tink-crypto/tink-go/v2/internal/verifharness/hlib"
+	"github.com/tink-crypto/tink-go/v2/internal/verifharness/kslib"
+)
 
 func main() {
-	o := hlib.Open("c12")
+	o := hlib.Open("C12")
 	defer o.Close()
-	o.Emit("P enc 1:v128,3:b48656c6c6f", "0880011a0548656c6c6f", true)
-	o.Emit("V derive 5:E:0:5:1;7:E:1:-:3", "ok 5:E:0:1;7:E:1:3", true)
+	seed := *hlib.FlagSeed
+	quickTier = !hlib.Thorough()
+	kslib.InstallDetRand(seed)
+	w := &world{o: o, seed: seed, seen: map[string]bool{}, reported: map[string]int{}, pools: map[string][]*gcase{}, perturb: map[string][]perturbSrc{}}
+	t0 := time.Now()
+	lap := func(what string) {
+		fmt.Fprintf(os.Stderr, "c12: %-28s %6.1fs  lines=%d\n", what, time.Since(t0).Seconds(), o.N)
+	}
+
+	grid := allGrids(seed)
+	lap("grid built")
+	r := hlib.NewRng(seed, "c12/keys")
+	perType := map[string]int{}
+	for i := range grid {
+		perType[grid[i].typ]++
+	}
+	for i := range grid {
+		c := &grid[i]
+		o.Count("grid-points/" + c.typ)
+		// small grids get every id class, large ones two per point (all five in the thorough tier)
+		all := hlib.Thorough() || perType[c.typ] <= 40
+		if c.slow && !hlib.Thorough() {
+			all = false
+		}
+		w.runKeyCase(c, r, all)
+		if c.mat == "" || c.mat == "fresh" {
+			w.checkParams(c)
+		}
+		if !c.noKeyset && c.lossy == "" && c.noser == "" {
+			w.pools[c.class] = append(w.pools[c.class], c)
+		}
+	}
+	lap("stream 1: keys + parameters")
+	w.fallbackKeys()
+	lap("fallback (KMS) keys")
+	w.perturbStream(hlib.NewRng(seed, "c12/perturb"))
+	lap("stream 2: perturbed inputs")
+	w.keysetStream(hlib.NewRng(seed, "c12/keysets"))
+	lap("stream 3: keysets")
+
+	for t, n := range keygenRefused {
+		o.Hist["keygen-refuses-valid-parameters(built-with-NewKey)/"+t] = n
+	}
+	var cl []string
+	for c := range w.reported {
+		cl = append(cl, c)
+	}
+	sort.Strings(cl)
+	for _, c := range cl {
+		fmt.Fprintf(os.Stderr, "c12: violation class %q ×%d\n", c, w.reported[c])
+	}
 }
